@@ -267,3 +267,36 @@ pub fn run_runs(seed: u64, tier: &str, out: &mut dyn FnMut(String)) {
         }
     }
 }
+
+/// C15: structure-doubling programs stepped a fixed number of times under the default limits
+pub fn run_growth(_seed: u64, tier: &str, out: &mut dyn FnMut(String)) {
+    use pushr::push::parser::PushParser;
+    let progs = [
+        "( CODE.QUOTE ( 1 ) EXEC.Y ( CODE.DUP CODE.LIST ) )",
+        "( CODE.QUOTE ( 1 ) EXEC.Y ( CODE.DUP CODE.APPEND ) )",
+        "( CODE.QUOTE ( 1 2 ) EXEC.Y ( CODE.DUP CODE.CONS ) )",
+        "( EXEC.Y ( CODE.QUOTE ( 1 ) CODE.DUP CODE.LIST CODE.DUP CODE.LIST CODE.POP ) )",
+        "( 1 EXEC.Y ( INTEGER.DUP INTEGER.+ ) )",
+    ];
+    let steps: &[usize] = if tier == "thorough" { &[10, 20, 30, 40, 50, 60, 70] } else { &[10, 30, 45] };
+    let mut iset = make_iset(false);
+    for p in progs.iter() {
+        for &n in steps {
+            let mut st = PushState::new();
+            PushParser::parse_program(&mut st, &iset, p);
+            let pre = enc_state(&st);
+            let nid = next_node_id();
+            let icache = iset.cache();
+            let r = catch_unwind(AssertUnwindSafe(|| {
+                for _ in 0..n {
+                    PushInterpreter::step(&mut st, &mut iset, &icache);
+                }
+                st
+            }));
+            match r {
+                Ok(s) => out(format!("( growth {} {} {} {} )", pre, n, enc_state(&s), nid)),
+                Err(_) => out(format!("( growth {} {} PANIC {} )", pre, n, nid)),
+            }
+        }
+    }
+}
